@@ -361,18 +361,16 @@ fn clause_wire(c: &Clause) -> String {
     format!("{}<-{}", a(&c.head), c.body.iter().map(a).collect::<Vec<_>>().join("&"))
 }
 
-/// shadow of the rule catalog, to keep every generated program inside the fragment the engine
-/// evaluates correctly (see notes/C18.md: a non-recursive head with >= 2 clauses one of which is a
-/// join is answered `[]` by the join planner on the pinned tree — C01's finding, not C18's).
+/// shadow of the rule catalog: keeps rule heads and stored relations apart (the engine's treatment of
+/// stored tuples under a rule head is outside C18) and knows which wrong-arity inserts are refused.
 #[derive(Clone, Default)]
 struct Shadow { cat: Vec<(String, Vec<Clause>)>, inc: bool, mats: Vec<String>, stored: Vec<String> }
 impl Shadow {
     fn get(&self, n: &str) -> Option<&Vec<Clause>> { self.cat.iter().find(|(k, _)| k == n).map(|x| &x.1) }
-    fn shape_ok(cs: &[Clause], head: &str) -> bool {
-        let joins = cs.iter().any(|c| c.body.len() >= 2);
-        let rec = cs.iter().any(|c| c.body.iter().any(|a| a.rel == head));
-        cs.len() <= 1 || !joins || rec
-    }
+    /// every clause set is in the supported fragment since the join planner plans each Union branch
+    /// separately (`fix:` 0302469); before that a non-recursive head with >= 2 clauses one of which is a
+    /// join had to be avoided (the engine answered `[]` for it)
+    fn shape_ok(_cs: &[Clause], _head: &str) -> bool { true }
     fn safe(c: &Clause) -> bool { c.head.args.iter().filter(|t| is_var(t)).all(|v| c.body.iter().any(|a| a.args.contains(v))) }
     /// apply a step to the shadow; false = the step would leave the supported fragment
     fn apply(&mut self, parts: &[&str]) -> bool {
